@@ -159,6 +159,7 @@ func c12BrkInterp(t *testing.T, c c12BrkCase) (v kit.Verdict) {
 		if time.Since(t0) > c12Stall {
 			cls["env:stalled-step"] = true
 			v.Excluded = true
+			c12Renew(t)
 			return v
 		}
 		if got == breaker.ErrServiceUnavailable {
